@@ -89,7 +89,7 @@ CharPlain ==
   /\ pc = "chars" /\ ci <= Len(argv[fld])
   /\ LET i == FindShort(argv[fld][ci]) IN
        /\ Accepted(i) /\ ~specs[i].a
-       /\ occ' = Append(occ, Occ(i, ci - 1, 0, 0))
+       /\ occ' = Append(occ, Occ(i, ci - 1, fld, 0, 0))
   /\ ci' = ci + 1
   /\ UNCHANGED <<specs, mode, argv, pc, pos, fld, res>>
 
@@ -98,7 +98,7 @@ CharArgNext ==
   /\ LET i == FindShort(argv[fld][ci]) IN
        /\ Accepted(i) /\ specs[i].a
        /\ pos <= Len(argv)
-       /\ occ' = Append(occ, Occ(i, ci - 1, pos, 1))
+       /\ occ' = Append(occ, Occ(i, ci - 1, fld, pos, 1))
   /\ pos' = pos + 1 /\ pc' = "short"
   /\ UNCHANGED <<specs, mode, argv, fld, ci, res>>
 
@@ -119,7 +119,7 @@ CharArgAttached ==
   /\ mode.same
   /\ LET i == FindShort(argv[fld][ci]) IN
        /\ Accepted(i) /\ specs[i].a
-       /\ occ' = Append(occ, Occ(i, ci - 1, fld, ci + 1))   \* field.value.drain(..prefix)
+       /\ occ' = Append(occ, Occ(i, ci - 1, fld, fld, ci + 1))   \* field.value.drain(..prefix)
   /\ pc' = "short"
   /\ UNCHANGED <<specs, mode, argv, pos, fld, ci, res>>
 
@@ -165,7 +165,7 @@ LongPlain ==
   /\ LTaken
   /\ LET m == MLongMatch(LName) IN
        /\ LSpecOk(m) /\ ~specs[m.i].a /\ LEq = 0
-       /\ occ' = Append(occ, Occ(m.i, 0, 0, 0))
+       /\ occ' = Append(occ, Occ(m.i, 0, pos, 0, 0))
   /\ pos' = pos + 1 /\ pc' = "short"
   /\ UNCHANGED <<specs, mode, argv, fld, ci, res>>
 
@@ -179,7 +179,7 @@ LongArgNext ==
   /\ pos + 1 <= Len(argv)
   /\ LET m == MLongMatch(LName) IN
        /\ LSpecOk(m) /\ specs[m.i].a /\ LEq = 0
-       /\ occ' = Append(occ, Occ(m.i, 0, pos + 1, 1))
+       /\ occ' = Append(occ, Occ(m.i, 0, pos, pos + 1, 1))
   /\ pos' = pos + 2 /\ pc' = "short"
   /\ UNCHANGED <<specs, mode, argv, fld, ci, res>>
 
@@ -193,7 +193,7 @@ LongArgEq ==
   /\ LTaken
   /\ LET m == MLongMatch(LName) IN
        /\ LSpecOk(m) /\ specs[m.i].a /\ LEq # 0
-       /\ occ' = Append(occ, Occ(m.i, 0, pos, LEq + 1))      \* field.value.drain(..index + 1)
+       /\ occ' = Append(occ, Occ(m.i, 0, pos, pos, LEq + 1))      \* field.value.drain(..index + 1)
   /\ pos' = pos + 1 /\ pc' = "short"
   /\ UNCHANGED <<specs, mode, argv, fld, ci, res>>
 
